@@ -7,6 +7,30 @@ VERIF = Path(__file__).resolve().parent.parent
 
 # property id -> (design section, what the theorems give, what is assumed)
 CLAIMS = {
+    "C12": ("8/C12",
+            "Lean 4 theorems about the model of process.repeat written as the code computes it (offset read from the already "
+            "shifted previous copy): closed form X(c*n+t) = x_t + c*P with P = span + last step, values tiled, length n*r, first "
+            "copy identical to the input, original spacing inside every copy and the last step across junctions, strict "
+            "monotonicity, repeat 1 = identity, repeat a then b = repeat a*b. Tie: correspondence with process.repeat and "
+            "Weaver.repeat (working and reference).",
+            "series of >= 2 points (for one point the code wraps a negative index; not modelled); exact arithmetic."),
+    "C14": ("8/C14",
+            "Lean 4 theorems for an arbitrary callable f: trend adds f(x_i) resp. f(x_i/(x_last-x_first)) pointwise, zero trend "
+            "is the identity, trends add up, linear trend; shift/scale keep strict monotonicity; normalise is an increasing "
+            "affine map sending min to min_val and max to max_val (non-constant data), preserves order and ratios of "
+            "differences, keeps a strictly increasing array strictly increasing. Tie: correspondence with process.trend / "
+            "linear_trend / normalize and the Weaver methods, the callable instrumented to record its arguments.",
+            "the callable is a parameter (polynomial family computed by the model, sinusoids by the oracle only); "
+            "normalisation of constant data divides by zero (excluded by hypothesis, reported as nan by the model)."),
+    "C17": ("8/C17",
+            "Lean 4 theorems, one per contract clause: oversample_linspace / piecewise_constant (knots are input elements, "
+            "linear / left-value fill, lengths, n < 2 unchanged, strict monotonicity), extend_linspace / extend_constant in "
+            "three directions with default mirror points or explicit end values, append_one_sample, IntervalArray get/set "
+            "(flat index i*n+j incl. the negative second index), to_2d_array with padding, closed intervals, "
+            "nr_of_full_intervals, block averaging = mean of the present entries + first abscissa, and the average-of-"
+            "oversampling round trip; integral rules and sum_over_indices. Tie: correspondence on every helper.",
+            "sizes for which Python raises IndexError (extension longer than the array with default end points) are compared "
+            "as error kinds only; NaN padding is a tag."),
     "C01": ("8/C01",
             "Lean 4 theorems over any ordered field and any PowLike exponent function (instantiated for every real alpha > 0): "
             "the stretching kernel hits its target integral for both rules (stretch_integral), the interval loop leaves every "
@@ -46,7 +70,7 @@ NOT_YET = {
 ALL = [f"C{n:02d}" for n in range(1, 21)]
 
 # properties whose theorems, tie and check are complete enough to be claimed
-BUILT = ["C01", "C03", "C10"]
+BUILT = ["C01", "C03", "C10", "C12", "C14", "C17"]
 
 
 
